@@ -766,6 +766,14 @@ def check_penalize(ctx, A, b, x, split, ref, tag, epsilon=None, overwrite=False)
     if D.size == 0:
         return out
     P = float(np.abs(pen).min())
+    degenerate_input = epsilon is None and not np.any(ref.Ad[D, D] != 0)
+    if (not np.isfinite(P) or P == 0 or not np.isfinite(np.abs(pen).max())) and not degenerate_input \
+            and (epsilon is None or (np.isfinite(1.0 / epsilon) and epsilon != 0)):
+        # some constrained row received no (or an infinite) penalty although a finite one is defined: that row is
+        # not constrained at all
+        ctx.check("penalize-agrees-up-to-epsilon", False, mech="penalize:constrained-row-not-penalised",
+                  penalties=[float(v) for v in np.abs(pen)[:8]], epsilon=epsilon, **tag)
+        return out
     if not np.isfinite(P) or P == 0 or not np.isfinite(np.abs(pen).max()):
         # default epsilon = 1e-10 / max|diag[D]|: infinite when every constrained diagonal entry is zero
         ctx.drop("penalize:penalty-parameter-degenerate(all constrained diagonal entries are zero, epsilon=None)"
@@ -1572,7 +1580,86 @@ def fam_repeated(ctx, k):
     ctx.nontrivial("repeated-index", int(rep.size - Dset.size))
 
 
+def fam_magnitudes(ctx, k):
+    """Prescribed values, right-hand sides and matrices over 60 orders of magnitude (nanometre displacements in
+    metres, physical constants): the statement is scale free, so small data are data and not rounding noise.
+    Oracle: dense model; everything is a power-of-two multiple of dyadic numbers, so the model is exact."""
+    import scipy.sparse as sp
+    from skfem.utils import condense, enforce, penalize, solve
+    rng = ctx.rng()
+    n = int(rng.integers(4, 12))
+    sx, sb, sa = (float(2.0 ** rng.choice([0, -40, -30, 25])) for _ in range(3))
+    Ad = np.diag(rng.integers(4, 9, size=n).astype(float)) + rng.integers(-1, 2, size=(n, n)) * (rng.random((n, n)) < 0.4)
+    Ad = Ad * sa
+    A = sp.csr_matrix(Ad)
+    D = np.sort(rng.choice(n, size=int(rng.integers(1, n - 1)), replace=False))
+    I = np.setdiff1d(np.arange(n), D)
+    x = np.zeros(n)
+    x[D] = rng.integers(-8, 9, size=D.size) / 8 * sx
+    if not np.any(x[D]):
+        x[D[0]] = sx / 8
+    b = rng.integers(-8, 9, size=n) / 8 * sb * sa
+    tag = dict(n=n, scales=[sx, sb, sa], D=D.tolist())
+    # reference: solve the kept equations with the prescribed values moved to the right-hand side
+    yI = np.linalg.solve(Ad[np.ix_(I, I)], b[I] - Ad[np.ix_(I, D)] @ x[D])
+    yref = x.copy()
+    yref[I] = yI
+    scale = float(np.abs(Ad) @ np.abs(yref) + np.abs(b)).__class__(1) if False else float((np.abs(Ad) @ np.abs(yref) + np.abs(b)).max())
+    y = solve(*condense(A, b, x=x, D=D))
+    ctx.check("expanded-equals-x-on-constrained", np.array_equal(y[D], x[D]), mech="magnitudes:expanded-values", **tag)
+    res = float(np.abs((Ad @ y - b)[I]).max())
+    ctx.check("expanded-satisfies-kept-equations", res <= 1e-9 * scale, mech="condense:small-or-large-data-dropped",
+              residual=res, scale=scale, **tag)
+    Ae, be = enforce(A, b, x=x, D=D)
+    ye = np.linalg.solve(np.asarray(Ae.toarray()), be)
+    ctx.check("enforce-same-solution-as-condense", float(np.abs(ye - yref).max()) <= 1e-9 * float(np.abs(yref).max()),
+              mech="enforce:small-or-large-data", **tag)
+    Ap, bp = penalize(A, b, x=x, D=D)
+    Apd = np.asarray(Ap.toarray())
+    pen = Apd[D, D]
+    yp = np.linalg.solve(Apd, np.asarray(bp, dtype=float))
+    ctx.check("penalize-agrees-up-to-epsilon", float(np.abs(yp - yref).max()) <= 1e-6 * float(np.abs(yref).max()),
+              mech="penalize:small-or-large-data", err=float(np.abs(yp - yref).max()), ymax=float(np.abs(yref).max()),
+              pen=pen.tolist(), **tag)
+    ctx.reached("data-magnitudes")
+    ctx.nontrivial("magnitudes", sx, sb, sa)
+
+
+def fam_hermitian_eigen(ctx, k):
+    """Complex Hermitian pencil through the ARPACK symmetric solver (real eigenvalues, complex eigenvectors): the
+    expanded eigenvectors vanish on D and satisfy the kept equations."""
+    import scipy.sparse as sp
+    from skfem.utils import condense, solve, solver_eigen_scipy_sym
+    rng = ctx.rng()
+    n = int(rng.integers(14, 24))
+    R = rng.integers(-2, 3, size=(n, n)) * (rng.random((n, n)) < 0.3)
+    C = rng.integers(-2, 3, size=(n, n)) * (rng.random((n, n)) < 0.3)
+    H = (R + R.T) + 1j * (C - C.T) + np.diag(rng.integers(8, 16, size=n) + 4.0 * np.arange(n))
+    M = np.diag(rng.integers(1, 4, size=n).astype(float))
+    D = np.sort(rng.choice(n, size=int(rng.integers(1, 4)), replace=False))
+    I = np.setdiff1d(np.arange(n), D)
+    A, Ms = sp.csr_matrix(H), sp.csr_matrix(M)
+    kk = 3
+    L, Y = solve(*condense(A, Ms, D=D), solver=solver_eigen_scipy_sym(k=kk, sigma=0.0))
+    tag = dict(n=n, D=D.tolist())
+    ctx.check("eigen-expanded-equals-x-on-constrained", Y.shape == (n, kk) and not np.any(Y[D]),
+              mech="hermitian-eigen:constrained-entries", **tag)
+    worst = 0.0
+    for j in range(kk):
+        r = (H @ Y[:, j] - L[j] * (M @ Y[:, j]))[I]
+        worst = max(worst, float(np.abs(r).max()) / (float(np.abs(H).sum(1).max()) * float(np.abs(Y[:, j]).max()) + 1e-300))
+    ctx.check("eigen-expanded-satisfies-kept-equations", worst <= 1e-8, mech="hermitian-eigen:expanded-eigenvectors-wrong",
+              residual=worst, complex_part=float(np.abs(Y.imag).max()), **tag)
+    ref = np.sort(np.linalg.eigvals(np.linalg.solve(M[np.ix_(I, I)], H[np.ix_(I, I)])).real)[:kk]
+    ctx.check("eigen-expanded-satisfies-kept-equations", float(np.abs(np.sort(L.real) - ref).max()) <= 1e-7 * float(np.abs(ref).max()),
+              mech="hermitian-eigen:eigenvalues", **tag)
+    ctx.reached("complex-hermitian-pencil")
+    ctx.nontrivial("hermitian-eigen", n, int(D.size))
+
+
 FAMILIES = [
+    Family("magnitudes", fam_magnitudes, quick=120, thorough=3600),
+    Family("hermitian-eigen", fam_hermitian_eigen, quick=20, thorough=600),
     Family("directed", fam_directed, quick=4, thorough=4),
     Family("exhaustive-small", fam_exhaustive_small, quick=16, thorough=48, exhaustive=True),
     Family("random-linear", fam_random_linear, quick=1500, thorough=44000, budget={"quick": 60, "thorough": 600}),
